@@ -11,14 +11,21 @@ pub const SD_SUM_MAX: f64 = 2.0e4;
 pub const SD_SWEEP_MAX: f64 = 1.5e6;
 
 /// x ln(x/(x+d)) + d  (= bd0(x, x+d)), x > 0, x + d > 0.
+/// `m` = x + d is passed separately because it is known more accurately when m << x.
 #[inline]
-pub fn dev(x: f64, d: f64) -> f64 {
-    -x * log1pmx(d / x)
+pub fn dev(x: f64, d: f64, m: f64) -> f64 {
+    let r = d / x;
+    if r < -0.9 {
+        x * (x / m).ln() + d
+    } else {
+        -x * log1pmx(r)
+    }
 }
 
 /// Binomial-type kernel  C(n,k) p^k q^(n-k)  in Loader's form.
 /// `nmk` = n-k, `d` = n p - k (accurately), `lp`/`lq` = ln p, ln q (used only at k=0 / k=n).
-pub fn binom_raw(k: f64, n: f64, nmk: f64, d: f64, lp: f64, lq: f64) -> f64 {
+/// `np`, `nq` = n p and n q computed directly by the caller.
+pub fn binom_raw(k: f64, n: f64, nmk: f64, d: f64, np: f64, nq: f64, lp: f64, lq: f64) -> f64 {
     if n == 0.0 {
         return 1.0;
     }
@@ -29,10 +36,10 @@ pub fn binom_raw(k: f64, n: f64, nmk: f64, d: f64, lp: f64, lq: f64) -> f64 {
         return (n * lp).exp();
     }
     // n p = k + d > 0 and n q = nmk - d > 0 required
-    if !(k + d > 0.0) || !(nmk - d > 0.0) {
+    if !(np > 0.0) || !(nq > 0.0) {
         return 0.0;
     }
-    let lc = stirl_gamma(n) - stirl_gamma(k) - stirl_gamma(nmk) - dev(k, d) - dev(nmk, -d);
+    let lc = stirl_gamma(n) - stirl_gamma(k) - stirl_gamma(nmk) - dev(k, d, np) - dev(nmk, -d, nq);
     lc.exp() * (n / (2.0 * PI * k * nmk)).sqrt()
 }
 
@@ -183,4 +190,9 @@ pub fn hurwitz(a: u64, s: f64) -> f64 {
         j -= 1;
     }
     acc
+}
+
+/// Hurwitz zeta for a large real start (a >= 2^53; Euler-Maclaurin directly).
+pub fn hurwitz_f(a: f64, s: f64) -> f64 {
+    em_tail(a, None, s)
 }
